@@ -1,6 +1,6 @@
 (* Concrete shared caches: MemoryCache (dict or pylru.lrucache) and the digest-keyed disk store.
    cache/memory.py, cache/disk.py; pylru is third-party and modelled by hand (MRU-first list, evict the last). *)
-From Connectome Require Import Values MiscGen.
+From Connectome Require Import Values MemGen.
 
 Inductive ckind :=
 | KRam (size : option nat)        (* MemoryCache(size): keys compared with Python == on NodeHash.value *)
